@@ -495,8 +495,10 @@ def lower_create_from_blueprint(node: vy_ast.Call, ctx: VenomCodegenContext) -> 
     codesize = b.sub(full_codesize, code_offset)
 
     # Assert blueprint has code after preamble (codesize > 0)
-    # Use sgt since codesize could underflow if code_offset > extcodesize
-    has_code = b.sgt(codesize, IRLiteral(0))
+    # Compare the unsigned operands, since codesize underflows if
+    # code_offset > extcodesize (and wraps to a small positive number if
+    # code_offset > extcodesize + 2**255)
+    has_code = b.gt(full_codesize, code_offset)
     b.assert_(has_code)
 
     # Handle constructor arguments
